@@ -12,7 +12,11 @@ package c18
 
 import (
 	"context"
+	"errors"
 	"time"
+
+	coreaddress "cosmossdk.io/core/address"
+	sdkmath "cosmossdk.io/math"
 
 	"cosmossdk.io/log"
 	storetypes "cosmossdk.io/store/types"
@@ -45,6 +49,7 @@ import (
 	palomakeeper "github.com/palomachain/paloma/v2/x/paloma/keeper"
 	palomatypes "github.com/palomachain/paloma/v2/x/paloma/types"
 	skywaykeeper "github.com/palomachain/paloma/v2/x/skyway/keeper"
+	evmtypes "github.com/palomachain/paloma/v2/x/evm/types"
 	skywaytypes "github.com/palomachain/paloma/v2/x/skyway/types"
 )
 
@@ -60,6 +65,126 @@ type env struct {
 	msg      palomatypes.MsgServer
 	skyway   skywaykeeper.Keeper
 	escrow   sdk.AccAddress
+	flt      *faulter
+	pkey     *storetypes.KVStoreKey // the x/paloma store (wiped by the genesis round trip)
+}
+
+// ---- fault-injecting proxies around the three collaborators of the x/paloma keeper ----
+
+var errInjected = errors.New("verif: injected collaborator fault")
+
+// faulter counts every call the x/paloma keeper makes through its AccountKeeper, BankKeeper and
+// FeegrantKeeper interfaces; when armed, the at-th call fails BEFORE it is forwarded: with
+// errInjected where the method returns an error and the kind is "error", with a panic otherwise.
+type faulter struct {
+	calls int
+	at    int  // 0 = not armed
+	panic bool // kind
+	log   []string
+}
+
+func (f *faulter) reset(at int, pan bool) { f.calls, f.at, f.panic, f.log = 0, at, pan, nil }
+
+// tick returns true when this call has to fail with an error; it panics itself when the call has
+// to fail by panic.
+func (f *faulter) tick(name string, canErr bool) bool {
+	f.calls++
+	f.log = append(f.log, name)
+	if f.at != 0 && f.calls == f.at {
+		if canErr && !f.panic {
+			return true
+		}
+		panic(errInjected)
+	}
+	return false
+}
+
+type accProxy struct {
+	in authkeeper.AccountKeeper
+	f  *faulter
+}
+
+func (p accProxy) AddressCodec() coreaddress.Codec {
+	p.f.tick("AddressCodec", false)
+	return p.in.AddressCodec()
+}
+
+func (p accProxy) HasAccount(ctx context.Context, a sdk.AccAddress) bool {
+	p.f.tick("HasAccount", false)
+	return p.in.HasAccount(ctx, a)
+}
+
+func (p accProxy) GetAccount(ctx context.Context, a sdk.AccAddress) sdk.AccountI {
+	p.f.tick("GetAccount", false)
+	return p.in.GetAccount(ctx, a)
+}
+
+func (p accProxy) NewAccount(ctx context.Context, a sdk.AccountI) sdk.AccountI {
+	p.f.tick("NewAccount", false)
+	return p.in.NewAccount(ctx, a)
+}
+
+func (p accProxy) SetAccount(ctx context.Context, a sdk.AccountI) {
+	p.f.tick("SetAccount", false)
+	p.in.SetAccount(ctx, a)
+}
+
+type bankProxy struct {
+	in bankkeeper.BaseKeeper
+	f  *faulter
+}
+
+func (p bankProxy) SendCoinsFromModuleToAccount(ctx context.Context, m string, to sdk.AccAddress, amt sdk.Coins) error {
+	if p.f.tick("SendCoinsFromModuleToAccount", true) {
+		return errInjected
+	}
+	return p.in.SendCoinsFromModuleToAccount(ctx, m, to, amt)
+}
+
+func (p bankProxy) SendCoinsFromAccountToModule(ctx context.Context, from sdk.AccAddress, m string, amt sdk.Coins) error {
+	if p.f.tick("SendCoinsFromAccountToModule", true) {
+		return errInjected
+	}
+	return p.in.SendCoinsFromAccountToModule(ctx, from, m, amt)
+}
+
+func (p bankProxy) HasBalance(ctx context.Context, a sdk.AccAddress, amt sdk.Coin) bool {
+	p.f.tick("HasBalance", false)
+	return p.in.HasBalance(ctx, a, amt)
+}
+
+type feegrantProxy struct {
+	in feegrantkeeper.Keeper
+	f  *faulter
+}
+
+func (p feegrantProxy) AllowancesByGranter(ctx context.Context, req *feegrant.QueryAllowancesByGranterRequest) (*feegrant.QueryAllowancesByGranterResponse, error) {
+	if p.f.tick("AllowancesByGranter", true) {
+		return nil, errInjected
+	}
+	return p.in.AllowancesByGranter(ctx, req)
+}
+
+func (p feegrantProxy) GrantAllowance(ctx context.Context, granter, grantee sdk.AccAddress, a feegrant.FeeAllowanceI) error {
+	if p.f.tick("GrantAllowance", true) {
+		return errInjected
+	}
+	return p.in.GrantAllowance(ctx, granter, grantee, a)
+}
+
+// ---- the two collaborators TryAttestation needs besides the stores ----
+
+type fakeStaking struct{ skywaytypes.StakingKeeper }
+
+func (fakeStaking) GetLastTotalPower(context.Context) (sdkmath.Int, error) { return sdkmath.NewInt(10), nil }
+func (fakeStaking) GetLastValidatorPower(context.Context, sdk.ValAddress) (int64, error) {
+	return 10, nil
+}
+
+type fakeEVM struct{ skywaytypes.EVMKeeper }
+
+func (fakeEVM) GetChainInfo(_ context.Context, c string) (*evmtypes.ChainInfo, error) {
+	return &evmtypes.ChainInfo{ChainReferenceID: c, ChainID: 1, SmartContractAddr: "0x01"}, nil
 }
 
 func newEnv(start time.Time) *env {
@@ -105,16 +230,17 @@ func newEnv(start time.Time) *env {
 	pk.Subspace(palomatypes.ModuleName)
 	sub, _ := pk.GetSubspace(palomatypes.ModuleName)
 
+	flt := &faulter{}
 	pal := palomakeeper.NewKeeper(cdc, runtime.NewKVStoreService(keys[palomatypes.StoreKey]), sub,
-		"v1.0.0", bondDenom, acc, bk, fg, nil, nil,
+		"v1.0.0", bondDenom, accProxy{acc, flt}, bankProxy{bk, flt}, feegrantProxy{fg, flt}, nil, nil,
 		authcodec.NewBech32Codec(params2.ValidatorAddressPrefix), authority)
 
-	sky := skywaykeeper.NewKeeper(cdc, acc, nil, bk, nil, distrkeeper.Keeper{}, ibctransferkeeper.Keeper{},
-		nil, nil, pal, nil, skywaykeeper.NewSkywayStoreGetter(keys[skywaytypes.StoreKey]), authority,
+	sky := skywaykeeper.NewKeeper(cdc, acc, fakeStaking{}, bk, nil, distrkeeper.Keeper{}, ibctransferkeeper.Keeper{},
+		fakeEVM{}, nil, pal, nil, skywaykeeper.NewSkywayStoreGetter(keys[skywaytypes.StoreKey]), authority,
 		authcodec.NewBech32Codec(params2.ValidatorAddressPrefix))
 
 	e := &env{ctx: ctx, cdc: cdc, acc: acc, bank: bk, feegrant: fg, paloma: pal,
-		msg: palomakeeper.NewMsgServerImpl(*pal), skyway: sky}
+		msg: palomakeeper.NewMsgServerImpl(*pal), skyway: sky, flt: flt, pkey: keys[palomatypes.StoreKey]}
 	// the module account exists from genesis on a real chain
 	e.escrow = acc.GetModuleAccount(ctx, palomatypes.ModuleName).GetAddress()
 	return e
